@@ -79,6 +79,7 @@ pub struct OcParts {
 }
 
 pub struct Pool {
+    #[allow(dead_code)]
     pub name: String,
     pub cold_sk: SigningKey,
     pub cold_vk: [u8; 32],
